@@ -51,6 +51,11 @@ func main() {
 	switch cmd {
 	case "worker":
 		os.Exit(mon.WorkerMain(c, os.Args[3:]))
+	case "oneshot":
+		if o, ok := c.(interface{ OneShot([]string) int }); ok {
+			os.Exit(o.OneShot(os.Args[3:]))
+		}
+		os.Exit(3)
 	case "run":
 		tier := "quick"
 		if len(os.Args) > 3 {
